@@ -1214,3 +1214,117 @@ def gen_ambig_candidate(rng):
     body.append(("match", ("lit", b"\n")))
     p = {"outs": outs, "hooks": hooks, "finish_codes": [], "yield_codes": [], "body": body}
     return p, pr_prog(p), tag
+
+
+# ---------------------------------------------------------------------------
+# case-centred programs (C08) and wait-centred programs (C16) for the simulation validator
+# ---------------------------------------------------------------------------
+def _rx(r, alphabet, depth=0, nset=True):
+    """small regexes over a small alphabet, classes and (unless nset=False) inverted sets included"""
+    k = r.choice((["c", "c", "set", "nset", "w", "seq", "alt", "plus", "star", "opt", "rep"] if depth < 2 else ["c", "set", "nset"]) if nset else
+                 (["c", "c", "set", "w", "seq", "alt", "plus", "star", "opt", "rep"] if depth < 2 else ["c", "set"]))
+    ch = lambda: r.choice(alphabet)
+    if k == "c": return ("c", ch())
+    if k == "set": a = ch(); return ("set", [(min(a, ch()), a)], False)
+    if k == "nset": return ("set", [(ch(),) * 2] + ([(ch(),) * 2] if r.random() < 0.5 else []), True)
+    if k == "w": return ("cls", r.choice(["\\w", "\\d"]))
+    if k == "seq": return ("seq", [_rx(r, alphabet, depth + 1, nset) for _ in range(r.randint(2, 3))])
+    if k == "alt": return ("alt", [_rx(r, alphabet, depth + 1, nset) for _ in range(2)])
+    if k == "plus": return ("plus", _rx(r, alphabet, depth + 1, nset))
+    if k == "star": return ("seq", [_rx(r, alphabet, depth + 1, nset), ("star", _rx(r, alphabet, depth + 1, nset))])
+    if k == "opt": return ("seq", [_rx(r, alphabet, depth + 1, nset), ("opt", _rx(r, alphabet, depth + 1, nset))])
+    return ("rep", _rx(r, alphabet, depth + 1, nset), r.randint(1, 2), r.choice([2, 3]))
+
+
+def gen_case_program(rng):
+    """(program, source, flags): case statements with several patterns per clause, else alone / combined, regex clauses,
+    cases inside try with a handler that looks at the offending byte, greedy cases with priorities (markers: hooks /
+    yield codes).  Many are rejected by the compiler (ambiguity, scheduling); the callers keep the accepted ones."""
+    r = rng
+    AB = b"abcdk"
+    hooks = ["h%d" % i for i in range(5)]
+    ycodes = ["Y%d" % i for i in range(5)]
+    greedy = r.random() < 0.4
+    yields = greedy and r.random() < 0.7
+    def lit(n=None):
+        return bytes(r.choice(AB) for _ in range(n or r.randint(1, 3)))
+    def pat(regex_ok=True):
+        k = r.choice(["lit", "lit", "casei", "re", "re"] if regex_ok else ["lit", "lit", "casei"])
+        if k == "lit": return ("lit", lit())
+        if k == "casei": return ("casei", lit())
+        # (known finding C08: an inverted class in a clause pattern loses its rejected symbols in the merged decider)
+        return ("re", _rx(r, AB, nset=False))
+    outs = [{"type": "int", "name": "n0", "signed": None, "width": None, "default": None}]
+    body = [("match", ("lit", b"q"))]
+    if greedy:
+        cls = []
+        for i in range(r.randint(2, 4)):
+            mark = [("yield", ycodes[i])] if yields else [("hook", hooks[i]), ("match", ("lit", b";"))]
+            cls.append((r.choice([None, None, 1, 1, 2]), [r.choice([("re", ("plus", ("cls", "\\w"))), ("re", ("plus", ("set", [(97, 100)], False))), pat(), ("lit", lit(2)), ("lit", lit(3))])], mark))
+        inner = ("gcase", cls)
+        if yields:
+            body.append(("loop", None, [inner]))
+        else:
+            body += [inner, ("match", ("lit", b"\n"))]
+    else:
+        ncl = r.randint(1, 3)
+        cls = []
+        for i in range(ncl):
+            pats = [pat() for _ in range(r.randint(1, 2))]
+            b = r.choice([[("hook", hooks[i])], [("hook", hooks[i]), ("match", ("lit", lit(1)))], [("match", ("lit", lit(1))), ("hook", hooks[i])], []])
+            cls.append((pats, b))
+        e = r.random()
+        if e < 0.3:
+            cls.append((["else"], r.choice([[("hook", hooks[4])], [("hook", hooks[4]), ("match", ("re", ("set", [(97, 122)], False)))], []])))
+        elif e < 0.4 and cls:
+            cls[-1] = (cls[-1][0] + ["else"], cls[-1][1])
+        cs = ("case", cls)
+        if r.random() < 0.4:
+            handler = r.choice([[("assign", "n0", ("num", 9)), ("match", ("re", ("set", [(97, 122)], False))), ("match", ("lit", b"!"))],
+                                [("hook", hooks[4]), ("match", ("re", ("any",)))], [("match", ("lit", lit(1)))]])
+            body.append(("try", [cs], r.choice([["nomatch"], None]), handler))
+        else:
+            body.append(cs)
+        body += [("hook", hooks[3]), ("match", ("lit", b"\n"))]
+    p = {"outs": outs, "hooks": hooks, "finish_codes": [], "yield_codes": ycodes if yields else [], "body": body}
+    return p, pr_prog(p), (["-fyield-support"] if yields else [])
+
+
+def gen_wait_program(rng):
+    """(program, source, flags): waits on literals, case-insensitive literals, regexes (classes, inverted sets,
+    alternation at the head, repeats) and concatenations; alone, inside try / loop / foreach, behind appends, followed
+    by marker actions; optionally with end() support."""
+    r = rng
+    AB = b"ab<>x"
+    hooks = ["h0", "h1"]
+    def lit(n=None):
+        return bytes(r.choice(AB) for _ in range(n or r.randint(2, 4)))
+    def wpat():
+        k = r.choice(["lit", "lit", "casei", "re", "re", "re", "concat"])
+        if k == "lit": return ("lit", lit())
+        if k == "casei": return ("casei", lit())
+        if k == "re": return ("re", _rx(r, AB))
+        return ("concat", [("lit", lit(2)), r.choice([("lit", lit(1)), ("re", _rx(r, AB, 1))])])
+    outs = [{"type": "int", "name": "n0", "signed": None, "width": None, "default": None},
+            {"type": "str", "name": "s0", "size": r.choice([3, 8]), "null": True, "default": None}]
+    w = ("wait", wpat())
+    after = [("hook", "h0"), ("match", ("lit", r.choice([b";", b"a", b"<"])))]
+    shape = r.choice(["plain", "plain", "try", "loop", "foreach", "append-before", "two", "handler"])
+    if shape == "plain":
+        body = [w] + after
+    elif shape == "try":
+        body = [("try", [("match", ("lit", lit(1))), w, ("match", ("lit", lit(1)))], r.choice([["nomatch"], None]), [("hook", "h1"), ("match", ("lit", b"!"))])] + after
+    elif shape == "loop":
+        body = [("loop", None, [("case", [([("lit", b";")], [("break", None)]), (["else"], [])]), w, ("hook", "h1")])] + after
+    elif shape == "foreach":
+        body = [("foreach", [w], [("assign", "n0", ("bin", "+", ("var", "n0"), ("num", 1)))])] + after
+    elif shape == "append-before":
+        body = [("append", "s0", ("lit", lit(2))), w] + after
+    elif shape == "two":
+        body = [w, ("hook", "h1"), ("wait", wpat())] + after
+    else:
+        body = [("try", [("match", ("lit", lit(2)))], ["nomatch"], [w, ("hook", "h1")])] + after
+    body.append(("match", ("lit", b"\n")))
+    eof = r.random() < 0.3
+    p = {"outs": outs, "hooks": hooks, "finish_codes": [], "yield_codes": [], "body": body}
+    return p, pr_prog(p), (["-feof-support"] if eof else [])
